@@ -240,7 +240,7 @@ def _subset_replay_stream(ctx: Ctx):
         ctx.count("subset-replay", "outcome=" + kind.split(":")[0])
         ctx.count("subset-replay", f"kept={len(keep)}/{len(ms.terms)}")
         ctx.distinct.add(lits[-1])
-    ctx.run_cases("subset-replay", c04.RIMPORTS, "", "rcase", "chk_replay", lits, descr, shard=150)
+    ctx.run_cases("subsetreplay", c04.RIMPORTS, "", "rcase", "chk_replay", lits, descr, shard=150)
 
 
 def search(ctx: Ctx):
